@@ -56,6 +56,8 @@ type caseRun struct {
 	// what the tool held at the instant each PSYNC arrived at the source (keyed by the stamp)
 	curCache *cacheBox
 	obs      map[int64]psyncObs
+
+	abort chan struct{} // closed by a target hook: the phase ends ("cut")
 }
 
 // psyncObs: the tool's holdings when a PSYNC reached the source double.  The tool is blocked on
@@ -267,6 +269,9 @@ loop:
 			s.Ended, s.RunErr = "tool-exited", fmt.Sprint(err)
 			t.done <- err
 			break loop
+		case <-cr.abort:
+			s.Ended = "cut"
+			break loop
 		case <-deadline:
 			s.Ended = "watchdog"
 			break loop
@@ -469,6 +474,33 @@ func readPosition(tgt *fakeredis.Server) storedPos {
 		}
 	})
 	return sp
+}
+
+// clearPositionFields removes the position but leaves the run id → checkpoint-name entry.
+func clearPositionFields(tgt *fakeredis.Server) {
+	for db := 0; db < fakeredis.NumDBs; db++ {
+		tgt.DoS(db, "DEL", config.CheckpointKey)
+	}
+}
+
+// cutBeforeSetCheckpoint arms the target double: the HSET with which a finished snapshot replay
+// stores its position is answered with an error instead of being executed, and the phase is told.
+func (cr *caseRun) cutBeforeSetCheckpoint() {
+	cr.abort = make(chan struct{})
+	snap, fired := false, false
+	cr.tgt.SetHooks(nil, func(q *fakeredis.Req) (fakeredis.Reply, bool) {
+		switch {
+		case q.Cmd == "RESTORE":
+			snap = true
+		case snap && q.Cmd == "HSET" && len(q.Args) > 3 && string(q.Args[0]) == config.CheckpointKey:
+			if !fired {
+				fired = true
+				close(cr.abort)
+			}
+			return fakeredis.Err("ERR verif: target unavailable"), true
+		}
+		return nil, false
+	}, nil)
 }
 
 func clearPosition(tgt *fakeredis.Server) {
